@@ -74,7 +74,7 @@ def judge(case, obs, res):
             if r["same_bytes"] is not True:
                 res.violate(f"reserialisation-not-byte-identical:{t}:{w}", f"serialise(parse(serialise(v))) differs from serialise(v) for a {t} ({w})",
                             case, obs, "identical bytes")
-    if m.get("valid"):
+    if m.get("valid") or m.get("if_accepted_unaltered"):
         want = normalise(t, json.loads(case["text"]))
         got = rt["val"]
         if t == "pubkey" or t in ("metablock", "wrapper", "layout"):
@@ -170,6 +170,22 @@ def shard(binpath, seed, sh, n):
             if t in TYPES:
                 break
         cases.append({"op": "serde", "type": t, "text": json.dumps(d, ensure_ascii=False), "meta": {"valid": bool(i % 5)}})
+    # hexadecimal fields (digests, signature values) in another letter case: rejected, or accepted and kept as written
+    import re
+    extra = []
+    for c in cases:
+        if c["meta"]["valid"] and c["type"] in ("metablock", "link", "wrapper", "signature") and len(extra) < n // 10:
+            # digests and signature values only (a key-table entry whose identifier does not fit its key is dropped with
+            # a logged warning - that is not a silent change, and C12's subject)
+            hexes = re.findall(r'"(?:sig|sha256|sha512)": "([0-9a-f]{32,})"', c["text"])
+            hexes = [h for h in hexes if re.search("[a-f]", h)]
+            if hexes:
+                h = rng.choice(hexes)
+                how = rng.choice(["upper", "mixed"])
+                h2 = h.upper() if how == "upper" else "".join(ch.upper() if i % 3 == 0 else ch for i, ch in enumerate(h))
+                extra.append({"op": "serde", "type": c["type"], "text": c["text"].replace('"' + h + '"', '"' + h2 + '"', 1),
+                              "meta": {"valid": False, "if_accepted_unaltered": True, "hexcase": how}})
+    cases += extra
     # values obtained from the public builders (not from parsing): same writer round trips
     api_cases = []
     for c in cases:
@@ -183,6 +199,8 @@ def shard(binpath, seed, sh, n):
         if r is None:
             continue
         cls = [f"type:{c['type']}", f"{'valid' if c['meta']['valid'] else 'mutated'}:{r}"]
+        if c["meta"].get("hexcase"):
+            cls.append(f"hex_letter_case:{r}")
         if r == "accepted":
             cls.append(f"roundtrip:{c['type']}")
             if '"MATCH"' in c["text"]:
